@@ -402,7 +402,6 @@ func (c *Ctx) inputRO(fn *ssa.Function, pi int, depth int, seen map[*ssa.Functio
 	}
 }
 
-
 // isLenOfBuf reports whether v is len(param), or Len() of a bytes.Buffer freshly created from param
 // (same block as bytes.NewBuffer(param), no other use of the buffer in between): both denote the number of
 // bytes the caller already had.
